@@ -166,6 +166,56 @@ pub fn translate(name: &str, program: &Program) -> Result<Translated, String> {
         off += i.body.op_size();
     }
     out.push_str("].\n\n");
+    // per Sierra invoke statement: code range, and per branch the target offset, the declared
+    // ApChange (Known k) and the declared Const gas cost (BranchChanges of the compiled invocation)
+    out.push_str(&format!("Definition stmts_{name} : list stmt_info := [\n"));
+    let mut sts = vec![];
+    for (idx, st) in program.statements.iter().enumerate() {
+        let cairo_lang_sierra::program::GenStatement::Invocation(inv) = st else { continue };
+        let info = &casm.debug_info.sierra_statement_info[idx];
+        let cairo_lang_sierra_to_casm::compiler::StatementKindDebugInfo::Invoke(ii) = &info.additional_kind_info
+        else {
+            continue;
+        };
+        let lf = format!("{}", inv.libfunc_id);
+        let mut brs = vec![];
+        for (k, b) in inv.branches.iter().enumerate() {
+            let tgt = match &b.target {
+                cairo_lang_sierra::program::GenBranchTarget::Fallthrough => idx + 1,
+                cairo_lang_sierra::program::GenBranchTarget::Statement(t) => t.0,
+            };
+            let tgt_off = casm
+                .debug_info
+                .sierra_statement_info
+                .get(tgt)
+                .map(|x| x.start_offset)
+                .unwrap_or(info.end_offset);
+            let (ap, cost) = match ii.result_branch_changes.get(k) {
+                Some(bc) => (
+                    match bc.ap_change {
+                        cairo_lang_casm::ap_change::ApChange::Known(n) => format!("(Some {n})"),
+                        _ => "None".to_string(),
+                    },
+                    bc.gas_cost
+                        .get(&cairo_lang_sierra::extensions::gas::CostTokenType::Const)
+                        .copied()
+                        .unwrap_or(0),
+                ),
+                None => ("None".to_string(), 0),
+            };
+            brs.push(format!("({}, {}, {})", tgt_off, ap, zi(cost)));
+        }
+        sts.push(format!(
+            " SI {} \"{}\" {} {} [{}]",
+            idx,
+            lf.replace('"', "'"),
+            info.start_offset,
+            info.end_offset,
+            brs.join("; ")
+        ));
+    }
+    out.push_str(&sts.join(";\n"));
+    out.push_str("\n].\n\n");
     out.push_str(&format!("Definition entry_{name} : Z := {entry}.\n"));
     let szs = |v: &[(String, i16)]| v.iter().map(|(_, s)| format!("{s}")).collect::<Vec<_>>().join("; ");
     let nms = |v: &[(String, i16)]| v.iter().map(|(t, _)| format!("\"{t}\"")).collect::<Vec<_>>().join("; ");
